@@ -70,7 +70,10 @@ impl NodeProcessor for ValueInjection {
 
     fn process_prefix_expression(&mut self, prefix: &mut Prefix) {
         let replace = match prefix {
-            Prefix::Identifier(identifier) => &self.identifier == identifier.get_name(),
+            Prefix::Identifier(identifier) => {
+                &self.identifier == identifier.get_name()
+                    && !self.is_identifier_used(&self.identifier)
+            }
             _ => false,
         };
 
